@@ -170,6 +170,35 @@ def run(ck):
         fn = facts.fn(RSD + name)
         ck.require_fact("R2.anchor-needs-read-lock", ck.flow(fn), ev_call(RSD + "anchorEntry"), ck.m_result_of(fn, MAP + "openForReading"), True, "anchorEntry()",
                         why="(an entry would be anchored to a slot it holds no read lock on)")
+    ck.rule("R1b copyFromShm, what is copied out of a (possibly still growing) slice: the StoreIOBuffer handed to copyFromShmSlice() has length = <size snapshot> - P, "
+            "object offset = e.mem_obj->endOffset() and data = <page> + P with one and the same P, the part of this slice copied on earlier visits "
+            "(P defined from endOffset() - sliceOffset); a reader that joins while the writer is still appending must continue *after* what it already has")
+    cfs = facts.fn("MemStore::copyFromShm")
+    cdefs = ck.local_defs(cfs)
+    nbuf = 0
+    for b in cfs.blocks.values():
+        for ev in b["ev"]:
+            if ev.get("e") != "decl" or E.strip(ev.get("init") or {}).get("f") != "StoreIOBuffer::StoreIOBuffer":
+                continue
+            a = E.strip(ev["init"]).get("a", [])
+            if len(a) != 3:
+                continue
+            nbuf += 1
+            ln, off, data = (E.strip(x) for x in a)
+            skipped = E.strip(ln.get("r")) if ln.get("k") == "bin" and ln.get("op") == "-" else None
+            adv = None
+            if data.get("k") == "bin" and data.get("op") == "+":
+                adv = E.strip(data["r"]) if E.strip(data["l"]).get("t", "").endswith("*") or E.strip(data["l"]).get("k") == "ref" else E.strip(data["l"])
+            pdefs = cdefs.get(skipped.get("d"), []) if skipped is not None and skipped.get("k") == "ref" else []
+            p_ok = bool(pdefs) and all(any(n.get("f") == "MemObject::endOffset" for n in E.walk(d)) and "sliceOffset" in E.mentions(d) and E.strip(d).get("op") == "-" for d in pdefs)
+            if skipped is not None and adv is not None and E.ckey(skipped) == E.ckey(adv) and p_ok and any(n.get("f") == "MemObject::endOffset" for n in E.walk(off)):
+                ck.ok("R1b.copy-continues-after-prefix", cfs.where(ev["l"]), "sliceBuf(size - P, endOffset(), page + P) with P = endOffset() - sliceOffset")
+            else:
+                ck.violation("R1b.copy-continues-after-prefix", "R1b|copyFromShm|slice-buffer-shape", cfs.where(ev["l"]),
+                             "copyFromShm builds the slice buffer as (%s, %s, %s): length, object offset and source pointer no longer skip the same already-copied prefix, so a "
+                             "reader joining a growing slice re-copies its beginning at a later object offset (a complete-looking body with wrong bytes)"
+                             % (E.key(ln)[:50], E.key(off)[:40], E.key(data)[:50]))
+    ck.need(nbuf == 1, "C19: copyFromShm no longer builds exactly one StoreIOBuffer for the slice (found %d)" % nbuf)
     ck.assume("interleavings are NOT decided: the gates fix program order only (std::atomic members with default seq_cst order are C54/C55's concern); the lock/slice protocol of the "
               "shared map is C55/C54/C53, the reader-side completion rule of copyFromShm is C10 M1, rock publish-after-write is C16; the catch handler of MemStore::write "
               "(exception -> disconnect -> abortWriting) and nextAppendableSlice's page bookkeeping are not modelled")
